@@ -26,6 +26,9 @@ import numpy as np
 from hypothesis import strategies as st
 
 from vlib import Discard, Sub, Violation, require
+from vlib import findings as _findings
+
+_KNOWN_TAGS = _findings.known_tags("C31")
 
 # The grid classes dispatch hundreds of tiny jax kernels eagerly, and each new array shape is compiled separately;
 # compile time dominates this check.  Compile them without LLVM optimisation passes (semantics-preserving; must be
@@ -909,6 +912,12 @@ def axis_grid(draw, depth, max0, maxsize, allow=("grid", "open", "simple", "log"
             splits[0] = 2
     else:
         splits = [[draw(st.sampled_from([1, 2, 2, 3])) for _ in range(nd)] for _ in range(depth)] if depth > 0 else 2
+    wmax = max(window) if isinstance(window, list) else window
+    if wmax >= 3 and "simple_open_grid_split_one_padding" in _KNOWN_TAGS:
+        # recorded known finding (known_findings.json): with padding > 0 the factory's "conservative" shape0 is not
+        # conservative for levels that do not refine (split 1) -> AssertionError; excluded by construction
+        if isinstance(splits, list):
+            splits = [[max(2, v) for v in lv] if isinstance(lv, list) else max(2, lv) for lv in splits]
     d = {"k": kind, "min_shape": ms, "window": window, "splits": splits, "depth": depth, "size0": None, "dist": None}
     if kind == "simple":
         dk = draw(st.sampled_from(["none", "scalar", "axis"]))
@@ -1230,6 +1239,20 @@ def hp_cases(tier, seed):
 def hp_all_cases(tier, seed):
     return [{"nside0": n} for n in ((1, 2) if tier == "quick" else (1, 2, 4))]
 
+
+def probe_simple_open_grid_split_one():
+    """re-executes the recorded failing input; returns a description while it still fails"""
+    from nifty.re.multi_grid import grid_impl as _GI
+    try:
+        _GI.SimpleOpenGrid(min_shape=(3,), window_size=3, splits=[[1], [1], [3]])
+    except AssertionError as e:
+        return f"AssertionError in OpenGrid.__init__ (shape at a level is 0): {e!r}"
+    except Exception as e:  # noqa: BLE001
+        return f"{type(e).__name__}: {e}"
+    return None
+
+
+KNOWN_PROBES = {"probe_simple_open_grid_split_one": probe_simple_open_grid_split_one}
 
 SUBS = [
     Sub(name="healpix", check=check_desc, cases=hp_cases, exhaustive=False, shards=6, jax=True, budget_quick=120.0,
